@@ -4,7 +4,7 @@ Each model states the contract it assumes; the list of models a run used is part
 import re
 import z3
 from mir import Unsupported
-from exec import Int, Tup, Adt, Enum, Cell, Ref, copy_val, PathEnd
+from exec import Int, Tup, Adt, Enum, Cell, Ref, BoxRef, copy_val, PathEnd
 
 
 class VecObj:
@@ -172,7 +172,7 @@ def m_deque_pop_front(it, callee, args, m):
 def m_deque_extend(it, callee, args, m):
     d = deref(args[0])
     src = args[1]
-    if isinstance(src, Adt) and src.name.split("<")[0].endswith("Range"):
+    if is_range(src):
         lo, hi = src.fields[0], src.fields[1]
         i = lo
         # concrete-shape requirement: the range bounds must be concretisable
@@ -306,7 +306,12 @@ def to_iter(x):
         return SeqIter([Tup([Ref(Cell(k)), Ref(c)]) for k, c in x.entries])
     if isinstance(x, (VecObj, SliceRef)):
         return SeqIter(slice_refs(as_slice(x)))
-    raise Unsupported(f"not an iterator: {type(x)}")
+    raise Unsupported(f"not an iterator: {type(x)} {getattr(x, 'name', '')}")
+
+
+def m_vec_into_iter_by_value(it, callee, args, m):
+    v = args[0]
+    return SeqIter([c.v for c in v.elems])
 
 
 def m_into_iter(it, callee, args, m):
@@ -615,6 +620,17 @@ def m_opt_map(it, callee, args, m):
     return some(it.call_closure(args[1], [o.fields[0]])) if o.variant == "Some" else NONE()
 
 
+def m_opt_try_branch(it, callee, args, m):
+    o = args[0]
+    if o.variant == "Some":
+        return Enum("Continue", 0, [o.fields[0]])
+    return Enum("Break", 1, [Enum("None", 0, [])])
+
+
+def m_opt_from_residual(it, callee, args, m):
+    return NONE()
+
+
 def m_opt_map_or(it, callee, args, m):
     o = args[0]
     return it.call_closure(args[2], [o.fields[0]]) if o.variant == "Some" else args[1]
@@ -748,10 +764,13 @@ def val_eq(it, a, b):
         return all(val_eq(it, x, y) for x, y in zip(a.fields, b.fields))
     if isinstance(a, str) and isinstance(b, str):
         return a == b
-    if isinstance(a, VecObj) and isinstance(b, VecObj):
-        if len(a.elems) != len(b.elems):
+    if isinstance(a, (VecObj, SliceRef)) and isinstance(b, (VecObj, SliceRef)):
+        sa, sb = as_slice(a), as_slice(b)
+        if len(sa) != len(sb):
             return False
-        return all(val_eq(it, x.v, y.v) for x, y in zip(a.elems, b.elems))
+        return all(val_eq(it, sa.vec.elems[sa.lo + i].v, sb.vec.elems[sb.lo + i].v) for i in range(len(sa)))
+    if isinstance(a, StringObj) and isinstance(b, StringObj):
+        return len(a.chars) == len(b.chars) and all(val_eq(it, x, y) for x, y in zip(a.chars, b.chars))
     raise Unsupported(f"equality of {type(a)} and {type(b)}")
 
 
@@ -785,6 +804,34 @@ def m_is_ascii_alphanumeric(it, callee, args, m):
 def m_is_ascii_alphabetic(it, callee, args, m):
     c = deref(args[0])
     return z3.Or(char_in(c, "a", "z"), char_in(c, "A", "Z"))
+
+
+def ascii_lower(c):
+    t = c.t
+    return z3.If(z3.And(z3.UGE(t, 65), z3.ULE(t, 90)), t + 32, t)
+
+
+def m_eq_ignore_ascii_case(it, callee, args, m):
+    return ascii_lower(deref(args[0])) == ascii_lower(deref(args[1]))
+
+
+def m_to_ascii_lowercase(it, callee, args, m):
+    c = deref(args[0])
+    return Int(ascii_lower(c), 32, False)
+
+
+def m_to_ascii_uppercase(it, callee, args, m):
+    c = deref(args[0])
+    t = c.t
+    return Int(z3.If(z3.And(z3.UGE(t, 97), z3.ULE(t, 122)), t - 32, t), 32, False)
+
+
+def m_is_ascii_uppercase(it, callee, args, m):
+    return char_in(deref(args[0]), "A", "Z")
+
+
+def m_is_ascii_lowercase(it, callee, args, m):
+    return char_in(deref(args[0]), "a", "z")
 
 
 _fresh = [0]
@@ -947,6 +994,65 @@ def m_vec_append(it, callee, args, m):
     return ()
 
 
+def m_localkey_with(it, callee, args, m):
+    """thread_local!{ static NAME: T = Owner::uncached_<name>() }: harper's thread-locals only memoise the value of an
+    initialiser function; the model evaluates that function (found by harper's naming convention) and applies the closure"""
+    key = args[0]
+    name = getattr(key, "tl_name", None) or (deref(key).tl_name if hasattr(deref(key), "tl_name") else None)
+    if name is None:
+        raise Unsupported("LocalKey::with on an unknown thread-local")
+    init = [n for n in it.raw if n.endswith("::uncached_" + name.lower()) and "{closure" not in n]
+    if len(init) != 1:
+        raise Unsupported(f"initialiser of thread-local {name} not found: {init}")
+    val = it.call_fn(init[0], [])
+    return it.call_closure(args[1], [Ref(Cell(val))])
+
+
+def m_rc_new(it, callee, args, m):
+    return BoxRef(Cell(args[0]))
+
+
+def m_box_new(it, callee, args, m):
+    return BoxRef(Cell(args[0]))
+
+
+def m_box_new_uninit(it, callee, args, m):
+    """Box::<[T; N]>::new_uninit() as produced by `vec![a, b, ..]`: MaybeUninit { uninit: (), value: ManuallyDrop(MaybeDangling(T)) }"""
+    return BoxRef(Cell(Adt("MaybeUninit", [(), Adt("ManuallyDrop", [Adt("MaybeDangling", [None])])])))
+
+
+def m_box_into_vec(it, callee, args, m):
+    b = deref(args[0])
+    arr = b.fields[1].fields[0].fields[0]
+    if not isinstance(arr, VecObj):
+        raise Unsupported("vec! box was not initialised with an array")
+    return arr
+
+
+def m_str_chars(it, callee, args, m):
+    s = deref(args[0])
+    return SeqIter([copy_val(c) for c in s.chars])
+
+
+def m_collect_smallvec(it, callee, args, m):
+    return VecObj([copy_val(deref(x)) if isinstance(x, Ref) else x for x in drain(to_iter(args[0]), it)])
+
+
+def m_vec_contains(it, callee, args, m):
+    v = deref(args[0])
+    for c in v.elems:
+        if val_eq(it, c.v, args[1]):
+            return z3.BoolVal(True)
+    return z3.BoolVal(False)
+
+
+def m_fn_call(it, callee, args, m):
+    """<F as Fn<Args>>::call(&f, (a, b))"""
+    f = deref(args[0])
+    tup = args[1]
+    return it.call_closure(f, list(tup.items) if isinstance(tup, Tup) else [tup])
+
+
 def m_identity(it, callee, args, m):
     return args[0]
 
@@ -1089,6 +1195,7 @@ def m_vec_truncate(it, callee, args, m):
 
 IT = r"(?:<.* as (?:Iterator|DoubleEndedIterator|ExactSizeIterator|IntoIterator)>|Iterator|DoubleEndedIterator)"
 MODELS = [
+    (r"^<Vec<.*> as IntoIterator>::into_iter$", lambda it, c, a, m: m_vec_into_iter_by_value(it, c, a, m)),
     (r"^<\[.*; \d+\] as IntoIterator>::into_iter$", lambda it, c, a, m: m_array_into_iter(it, c, a, m)),
     (r"^<Option<.*> as IntoIterator>::into_iter$", lambda it, c, a, m: m_opt_into_iter(it, c, a, m)),
     (r"^Vec::<.*>::len$|^VecDeque::<.*>::len$|^core::slice::<impl \[.*\]>::len$", m_vec_len),
@@ -1150,6 +1257,8 @@ MODELS = [
     (r"^Option::<.*>::(unwrap|expect)$", m_opt_unwrap),
     (r"^Option::<.*>::unwrap_or$", m_opt_unwrap_or),
     (r"^Option::<.*>::(copied|cloned)$", m_opt_copied),
+    (r"^<Option<.*> as Try>::branch$", m_opt_try_branch),
+    (r"^<Option<.*> as FromResidual<.*>>::from_residual$", m_opt_from_residual),
     (r"^Option::<.*>::map::<", m_opt_map),
     (r"^Option::<.*>::map_or::<", m_opt_map_or),
     (r"^Option::<.*>::map_or_else::<", m_opt_map_or_else),
@@ -1166,6 +1275,23 @@ MODELS = [
     (r"^core::num::<impl usize>::wrapping_sub$", m_wrapping_sub),
     (r"^core::num::<impl usize>::wrapping_add$", m_wrapping_add),
     (r"^core::num::<impl usize>::checked_sub$", m_checked_sub),
+    (r"^<Vec<.*> as Default>::default$", m_vec_new),
+    (r"^<VecDeque<.*> as Default>::default$", m_deque_new),
+    (r"^LocalKey::<.*>::with::<", m_localkey_with),
+    (r"^Box::<\[.*; \d+\]>::new_uninit$", m_box_new_uninit),
+    (r"^(std::boxed::)?box_assume_init_into_vec_unsafe::<", m_box_into_vec),
+    (r"^core::str::<impl str>::chars$", m_str_chars),
+    (IT + r"::collect::<SmallVec<", m_collect_smallvec),
+    (r"^SmallVec::<.*>::(new|default)$|^<SmallVec<.*> as Default>::default$", m_vec_new),
+    (r"^SmallVec::<.*>::push$", m_vec_push),
+    (r"^SmallVec::<.*>::len$", m_vec_len),
+    (r"^SmallVec::<.*>::is_empty$", m_is_empty),
+    (r"^<SmallVec<.*> as Deref(Mut)?>::deref(_mut)?$|^SmallVec::<.*>::as_slice$", m_vec_deref),
+    (r"^<&SmallVec<.*> as IntoIterator>::into_iter$", lambda it, c, a, m: SeqIter(slice_refs(as_slice(a[0])))),
+    (r"^(Rc|Arc)::<.*>::new$", m_rc_new),
+    (r"^Box::<.*>::new$", m_box_new),
+    (r"^<(Rc|Arc)<.*> as Clone>::clone$", m_identity),
+    (r"^<.* as Fn(Mut|Once)?<\(.*\)>>::call(_mut|_once)?$", m_fn_call),
     (r"^<.* as Clone>::clone$", m_clone),
     (r"^<&mut BTreeMap<.*> as IntoIterator>::into_iter$", m_btree_iter_mut),
     (r"^<btree_map::IterMut<.*> as Iterator>::next$", m_next),
@@ -1176,6 +1302,11 @@ MODELS = [
     (r"^Vec::<.*>::append$", m_vec_append),
     (r"^<&(mut )?Vec<.*> as IntoIterator>::into_iter$", lambda it, c, a, m: SeqIter(slice_refs(as_slice(a[0])))),
     (r"^<std::slice::IterMut<'_, .*> as Iterator>::next$", m_next),
+    (r"^(core::)?char::methods::<impl char>::eq_ignore_ascii_case$", m_eq_ignore_ascii_case),
+    (r"^(core::)?char::methods::<impl char>::to_ascii_lowercase$", m_to_ascii_lowercase),
+    (r"^(core::)?char::methods::<impl char>::to_ascii_uppercase$", m_to_ascii_uppercase),
+    (r"^(core::)?char::methods::<impl char>::is_ascii_uppercase$", m_is_ascii_uppercase),
+    (r"^(core::)?char::methods::<impl char>::is_ascii_lowercase$", m_is_ascii_lowercase),
     (r"^(core::)?char::methods::<impl char>::is_ascii_hexdigit$", m_is_ascii_hexdigit),
     (r"^(core::)?char::methods::<impl char>::is_ascii_digit$", m_is_ascii_digit),
     (r"^(core::)?char::methods::<impl char>::is_ascii_alphanumeric$", m_is_ascii_alphanumeric),
